@@ -136,11 +136,18 @@ def run(ctx):
             b['pool'].pop('keep_alive', None)
             b['budget'] = 15
             scens.insert(0, with_sigint(b, {'mode': 'line', 'at': at, 'hit': 1}, '@known'))
+    # ... and points that every run visits: the start-up of the progress-bar handler thread (deferred on purpose by the library)
+    for j, pat in enumerate([r'xcall\|progress_bar\.py:\d+:wait', r'xcall\|progress_bar\.py:\d+:start', r'call\|progress_bar\.py:__enter__:\d+']):
+        b = base_scen(random.Random(2 + j), 910 + j, ['fork', 'threading', 'forkserver'][j])
+        b['calls'][0]['params']['progress_bar'] = True
+        b['pool'].pop('keep_alive', None)
+        b['budget'] = 20
+        scens.insert(0, with_sigint(b, {'mode': 'line', 'at_re': pat, 'hit': 1}, '@pb'))
     recs = runner.run_many(scens, 'c17', jobs=10)
     bad, hangs = analyse(recs)
     out_v, seen = [], set()
     for rec, msg, cls in bad:
-        sig = cls + ':' + (rec['scenario']['sig'].get('at') or 'time')
+        sig = cls + ':' + ((rec['scenario']['sig'].get('at') or rec['scenario']['sig'].get('at_re') or 'time'))
         if cls in seen and len(out_v) > 12:
             continue
         seen.add(cls)
@@ -152,7 +159,7 @@ def run(ctx):
     known_sigs = {f['signature'] for f in known_findings() if f.get('property') == 'C17' and f.get('status') == 'open'}
     reported = set()
     for rec in hangs[:12]:
-        sig = 'hang:' + (rec['scenario']['sig'].get('at') or 'time')
+        sig = 'hang:' + ((rec['scenario']['sig'].get('at') or rec['scenario']['sig'].get('at_re') or 'time'))
         if sig in reported:
             continue
         reported.add(sig)
